@@ -594,6 +594,10 @@ class OutputSchemaBuilder(
         # Share the same cache for input_builder in order to share scalar types
         self.input_builder._cache_by_name = self._cache_by_name
         self.get_flattened: Optional[Callable[[Any], Any]] = None
+        # Unions are named after their alternatives, so they have to be cached apart
+        self._unions: Dict[
+            str, Tuple[graphql.GraphQLUnionType, List[graphql.GraphQLNamedType]]
+        ] = {}
 
     def _field_serialization_method(self, field: ObjectField) -> SerializationMethod:
         return partial_serialization_method_factory(
@@ -823,7 +827,11 @@ class OutputSchemaBuilder(
             types = [factory.raw_type for factory in results]
             if name is None:
                 name = self.union_name_factory([t.name for t in types])
-            return graphql.GraphQLUnionType(name, types, description=description)
+            if name in self._unions and self._unions[name][1] == types:
+                return self._unions[name][0]
+            union = graphql.GraphQLUnionType(name, types, description=description)
+            self._unions[name] = (union, types)
+            return union
 
         return TypeFactory(factory)
 
